@@ -185,8 +185,15 @@ DoneFree(t, r) == /\ r \in DOMAIN rec /\ rec[r].alive /\ rec[r].doneRan = 1
                   /\ rec' = [rec EXCEPT ![r].alive = FALSE]
                   /\ UNCHANGED <<inProxy, pend, plain>>
 (* ret.cbsend *)
+(* (C10) "reach each running thread": tpt_msg_cbsend may only give up (rc # 0, no completion) after EVERY other worker
+   was tried and refused - a chain or sweep that stops at the first thread that cannot take the message abandons the
+   running ones behind it *)
+CbsendGaveUpJustified(p, m) ==
+    \A r \in DOMAIN rec : rec[r].m = m /\ rec[r].p = p =>
+        \A t \in 0..(rec[r].n - 1) : t = p \/ \E i \in Proxies(r) : inst[i].d = t /\ IsFail(i)
 RetCbsend(p, m, rc) ==
     /\ pend[p].kind = "cbsend" /\ pend[p].m = m
+    /\ (rc # 0 => (CbsendGaveUpJustified(p, m) = TRUE))
     /\ pend' = [pend EXCEPT ![p] = NoCall]
     /\ UNCHANGED <<rec, inProxy, plain>>
 
